@@ -112,7 +112,8 @@ func (w *psWorld) storeNames() []string {
 		found := false
 		for id, x := range w.idents {
 			if x.Name == e.Name {
-				if bytes.Equal(e.PublicKey, x.Pub) {
+				// the key delivered for this identity: its own, or the neutral element of a "smallorder" body
+				if bytes.Equal(e.PublicKey, x.Pub) || (len(e.PublicKey) == 32 && e.PublicKey[0] == 1 && bytes.Equal(e.PublicKey[1:], make([]byte, 31))) {
 					out = append(out, id)
 				} else {
 					out = append(out, "wrongkey:"+id)
@@ -228,6 +229,15 @@ func (w *psWorld) build(conns map[string]*psConn, name string, cs *psConn, m psM
 			other := ref.NewIdentity(id.Name, rndFunc(w.rng))
 			st := ref.SubTLV5(secret, id)
 			st[1].Val = other.Pub // delivered key differs from the signing key
+			inner = st.Encode()
+		case "smallorder":
+			// public key = neutral element of the curve, signature = (neutral element, 0): verifies for every message
+			neutral := make([]byte, 32)
+			neutral[0] = 1
+			var st ref.TLV
+			st.Add(ref.TagIdentifier, []byte(id.Name))
+			st.Add(ref.TagPublicKey, neutral)
+			st.Add(ref.TagSignature, append(append([]byte{}, neutral...), make([]byte, 32)...))
 			inner = st.Encode()
 		case "badtlv":
 			inner = []byte{0x01, 0x30, 0x41, 0x42}
